@@ -281,9 +281,9 @@ def ev_algebra(name, rec):
 SUBCHECKS = [
     Sub('labels', gen_labels, ev_labels, chunk=500, floor=100, parallel=False, guard=True),
     Sub('reverse', gen_reverse, ev_reverse, chunk=500, floor=50, parallel=False, guard=True),
-    Sub('triples', gen_triples, ev_triples, chunk=64, floor=300, guard=True),
+    Sub('triples', gen_triples, ev_triples, chunk=64, floor=300, guard=True, envs=4),
     Sub('iers', gen_iers, ev_iers, chunk=500, floor=100, parallel=False, guard=True),
-    Sub('algebra', gen_algebra, ev_algebra, chunk=4, floor=90, guard=True),
+    Sub('algebra', gen_algebra, ev_algebra, chunk=4, floor=90, guard=True, envs=2),
 ]
 
 
